@@ -48,11 +48,22 @@ def gen(rng, tier):
             c['kind'] = 'write' if i % 2 == 0 else 'read'
             if c['kind'] == 'write':
                 c['vdtype'] = rng.choice(['f', 'f', 'd'])
+            elif i % 6 == 1:
+                c['little'] = True      # the same file as a little-endian machine writes it, opened with endian='little'
         out.append(c)
     for i in range(n // 2):
-        c = S.gen(rng)
+        # whole-day and half-day steps (the hour column repeats) on every run
+        c = S.gen(rng, longspan=[None, None, 24, None, None, 12, None][i % 7])
         c['kind'] = 'swrite' if i % 2 == 0 else 'sread'
         c['vdtype'] = rng.choice(['f', 'f', 'd'])
+        out.append(c)
+    for i in range(n // 5):
+        # a file that was read, cut to a window of rows and columns and written again: its records must be those of the
+        # window (markers included), whatever grid attributes the reader left on the file
+        c = S.gen(rng)
+        r0, c0 = rng.randrange(c['ny']), rng.randrange(c['nx'])
+        c['win'] = [r0, rng.randint(r0 + 1, c['ny']), c0, rng.randint(c0 + 1, c['nx'])]
+        c['kind'] = 'sslice'
         out.append(c)
     for i in range(n // 4):
         out.append(_gen_cr(rng, 'cwrite' if i % 2 == 0 else 'cread'))
@@ -310,10 +321,35 @@ def _oracle_cr(case, res):
     return None
 
 
+def _windowed(case):
+    import copy
+    r0, r1, c0, c1 = case['win']
+    w = copy.deepcopy(case)
+    w['ny'], w['nx'], w['kind'] = r1 - r0, c1 - c0, 'swrite'
+    w['data'] = [[[sl[r * case['nx'] + q] for r in range(r0, r1) for q in range(c0, c1)] for sl in slabs] for slabs in case['data']]
+    return w
+
+
 def _impl_slab(case):
     import os
     import numpy as np
     try:
+        if case['kind'] == 'sslice':
+            from PseudoNetCDF.pncgen import pncgen
+            p = os.path.join(camx.tmpdir(), 'c09w_%d_%d.bin' % (os.getpid(), np.random.randint(1 << 30)))
+            o = p + '.out'
+            open(p, 'wb').write(S.encode(case))
+            try:
+                with lib.pnc_warnings():
+                    f = S.open_reader(case, p, 'memmap')
+                    r0, r1, c0, c1 = case['win']
+                    g = f.sliceDimensions(ROW=slice(r0, r1), COL=slice(c0, c1))
+                    pncgen(g, o, format=S.FORMATS[case['fmt']][4], verbose=0)
+                return dict(hex=open(o, 'rb').read().hex())
+            finally:
+                for q in (p, o):
+                    if os.path.exists(q):
+                        os.remove(q)
         if case['kind'] == 'swrite':
             return dict(hex=S.write_with_library(case, case['vdtype']).hex())
         b = S.encode(case)
@@ -371,14 +407,17 @@ def impl(case):
         return _impl_wind(case)
     if case['kind'] in ('cwrite', 'cread'):
         return _impl_cr(case)
-    if case['kind'] in ('swrite', 'sread'):
+    if case['kind'] in ('swrite', 'sread', 'sslice'):
         return _impl_slab(case)
     try:
         if case['kind'] == 'write':
             b = camx.write_with_library(case)
             return dict(hex=b.hex())
         b = camx.ref_encode_uamiv(case)
-        v = camx.read_with_library(b, 'read' if case['kind'] == 'read2' else 'memmap')
+        if case.get('little'):
+            v = camx.read_with_library(camx.to_little_endian(b), 'memmap', endian='little')
+        else:
+            v = camx.read_with_library(b, 'read' if case['kind'] == 'read2' else 'memmap')
         v['hex'] = b.hex()
         return v
     except lib.HarnessError:
@@ -398,6 +437,8 @@ def to_line(case, res):
         return _cr_line(case)
     if case['kind'] == 'swrite':
         return 'bin slab-enc ' + S.lean_steps(case)
+    if case['kind'] == 'sslice':
+        return 'bin slab-enc ' + S.lean_steps(_windowed(case))
     if case['kind'] == 'sread':
         return 'bin slab-mm %s %d %s' % (S.FORMATS[case['fmt']][0], case['nx'] * case['ny'], res.get('hex') or S.encode(case).hex())
     if case['kind'] == 'write':
@@ -427,7 +468,7 @@ def agree(case, out, res):
             return 'the python reference encoder and the Lean encoder differ'
         # the records the reader's own maps present against the Lean reader model on the same bytes
         return S.bnd_model_diff(res['hex'], res)
-    if case['kind'] in ('swrite', 'cwrite', 'wwrite'):
+    if case['kind'] in ('swrite', 'cwrite', 'wwrite', 'sslice'):
         return None if out[3:] == res['hex'] else 'writer bytes differ from the reference encoding (first difference at byte %d)' % _firstdiff(out[3:], res['hex'])
     if case['kind'] == 'sread':
         _, kv = lib.parse_kv('x ' + out[3:])
@@ -493,6 +534,8 @@ def oracle(case, res):
         return _oracle_wind(case, res)
     if case['kind'] in ('cwrite', 'cread'):
         return _oracle_cr(case, res)
+    if case['kind'] == 'sslice':
+        return _oracle_slab(_windowed(case), res)
     if case['kind'] in ('swrite', 'sread'):
         return _oracle_slab(case, res)
     if 'err' in res:
@@ -566,7 +609,7 @@ KEY_YEND = 'C08/uamiv-write/end-date-year-rollover'
 
 
 def classify(case, failure, model_out):
-    if case['kind'] in ('swrite', 'sread', 'cwrite', 'cread', 'wwrite', 'wread', 'bnd', 'land'):
+    if case['kind'] in ('swrite', 'sread', 'sslice', 'cwrite', 'cread', 'wwrite', 'wread', 'bnd', 'land'):
         return None
     if failure.startswith('end flag of a step ending at midnight 31 Dec'):
         return KEY_YEND
@@ -585,7 +628,7 @@ def nontrivial(case, res):
         return L.nontrivial(case, res)
     if case['kind'] == 'bnd':
         return len(case['tflag']) >= 2 or len(case['species']) >= 2
-    if case['kind'] in ('swrite', 'sread', 'cwrite', 'cread', 'wwrite', 'wread'):
+    if case['kind'] in ('swrite', 'sread', 'sslice', 'cwrite', 'cread', 'wwrite', 'wread'):
         return len({case['nz'], case['nx'] * case['ny'], len(case['flags'])} - {1}) >= 2
     dims = [len(case['species']), case['nx'] * case['ny'], case['nz'], len(case['tflag'])]
     return sum(1 for d in dims if d > 1) >= 2
